@@ -14,6 +14,7 @@ CONSTANTS
   MaxUpd = 3
   MaxSteps = 6
   Classes <- Cl123
+  MonName = "C03"
 INVARIANT NoViolation
 INVARIANT NoPanic
 INVARIANT CountersExact
